@@ -217,6 +217,13 @@ func VerifC18Dot() {
 	title := str(0, "title", "bi", "n")
 	legend := str(1, "legend", "File: ", "x")
 	fname := str(2, "func", "ma", "in")
+	if where == 9 {
+		// a very long function name with the metacharacters at the distances from its
+		// end where a length cap (64, 128, 256 bytes) would cut
+		tails := []int{62, 63, 126, 127, 254, 255}
+		tail := strings.Repeat("t", tails[vChoice("tail", len(tails))])
+		fname = vMetaString("func", "longname", tail, n)
+	}
 	file := str(3, "file", "fi", "le.go")
 	tagName := str(4, "tag", "k:v", "")
 	if where == 7 {
@@ -269,7 +276,7 @@ func VerifC18Dot() {
 	ComposeDot(&buf, g, &DotAttributes{}, cfg)
 	out := buf.String()
 	vReach("C18.dot:composed")
-	sites := []string{"graph title", "legend line", "function name", "file name", "label value", "numeric label unit", "(cancelling label weights)", "long label value", "binary name of an unsymbolized frame"}
+	sites := []string{"graph title", "legend line", "function name", "file name", "label value", "numeric label unit", "(cancelling label weights)", "long label value", "binary name of an unsymbolized frame", "very long function name"}
 	toks, ok := vDotLex(out)
 	if !ok {
 		vAssert(false, "C18.dot.lex."+strconv.Itoa(where)+": DOT output does not tokenize (unterminated string or stray character) with metacharacters in the "+sites[where])
